@@ -1305,9 +1305,13 @@ var ManySendsScript = func() []string {
 	return ops
 }()
 
+// HookScript: packets whose call data reaches a system contract (Staking.delegate) with an argument that makes the
+// native action fail after the EVM call itself succeeded, alone and next to an ordinary transfer.
+var HookScript = []string{"send A B erc20+hookfail 1", "send A B erc20 3", "upd B A", "upd B A", "recv A>B#1 g1", "recv A>B#2 g1", "upd A B", "upd A B", "ack A>B#1 g1", "ack A>B#2 g1"}
+
 func ScriptedViolations(prop string) (steps int, out []ScriptViol) {
 	seen := map[string]bool{}
-	for _, script := range [][]string{RestartScript, ManySendsScript} {
+	for _, script := range [][]string{RestartScript, ManySendsScript, HookScript} {
 		s := New(Config{Chains: 3, MaxSends: 14, Prop: prop})
 		for i, op := range script {
 			_, _, vs := s.Apply(op)
